@@ -23,6 +23,9 @@ Statements are abstracted to what decides the control flow of the two loops:
                not prepare (`prep = false`: missing table or column) or has too few parameters
                (`prep = true`; `ro` = SQLite classifies it read-only). queryStmtWithConn returns the
                rows carrying the error AND the error, so the loops treat it as any other failure.
+  timeout      a slow READ during which the request's context expires (deadline or cancellation): it is
+               interrupted and fails, changes nothing, and SQLite does NOT roll an open transaction back.
+               From then on the request's context is dead (`expires`).
   autoRollback a write that fails AND makes SQLite roll the open transaction back by itself:
                `INSERT OR ROLLBACK` hitting a constraint, `RAISE(ROLLBACK, …)` in a trigger. Outside a
                transaction it is an ordinary failing statement.
@@ -55,6 +58,7 @@ inductive Stmt where
   | partialFail (d : Nat)
   | startFail (prep ro : Bool)
   | autoRollback
+  | timeout
   | begin
   | commit
   | rollback
@@ -86,6 +90,7 @@ def sqlRun (db : Db) : Stmt → Option Db
   | .partialFail _ => none
   | .startFail _ _ => none
   | .autoRollback => none
+  | .timeout => none
   | .begin =>
     match db.open_ with
     | some _ => none
@@ -116,6 +121,7 @@ statements are read-only as far as SQLite is concerned. -/
 def readOnly : Stmt → Bool
   | .query _ => true
   | .queryFail => true
+  | .timeout => true
   | .startFail _ ro => ro
   | .begin => true
   | .commit => true
@@ -162,6 +168,33 @@ def queryStmt (db : Db) (s : Stmt) : Db × Res × Bool :=
 /-- `tx.Rollback()` / `ROLLBACK` whose error is ignored -/
 def rollbackIgnore (db : Db) : Db := (sqlRun db .rollback).getD db
 
+/-- the context a statement is handed to the driver with -/
+inductive Ctx where
+  | request      -- the caller's context (deadline, cancellation)
+  | background   -- `context.Background()`: never expires
+deriving Repr, DecidableEq
+
+/-- the request's context is dead after this (failing) statement -/
+def expires : Stmt → Bool
+  | .timeout => true
+  | _ => false
+
+/-- a `ROLLBACK` handed over on context `c`: on a context that has expired it may never reach SQLite
+(nothing obliges the driver, or the code before it, to run a statement that is out of time) - the
+transaction then stays open; on the background context it always runs -/
+def rollbackOn (c : Ctx) (expired : Bool) (db : Db) : Db :=
+  if c = .request ∧ expired = true then db else rollbackIgnore db
+
+/-- the context `handleError` / `abortOnError` issue the RollbackOnError `ROLLBACK` with (regenerated
+from the sources: `Gen.RollbackCtx`) -/
+def rollbackCtx : Ctx := .background
+
+/-- the `ROLLBACK` of a RollbackOnError request after statement `s` has failed -/
+def rollbackAfter (s : Stmt) (db : Db) : Db := rollbackOn rollbackCtx (expires s) db
+
+@[simp] theorem rollbackAfter_eq (s : Stmt) (db : Db) : rollbackAfter s db = rollbackIgnore db := by
+  simp [rollbackAfter, rollbackOn, rollbackCtx]
+
 structure Req where
   tx : Bool
   rb : Bool
@@ -188,7 +221,7 @@ def execLoop (rb : Bool) : Bool → Db → List Stmt → Db × List Res × Bool
       | (db', r, true) =>
         -- handleError
         if tx then (rollbackIgnore db', [r], false)
-        else if rb then (rollbackIgnore db', [r], false)
+        else if rb then (rollbackAfter s db', [r], false)
         else
           let (d, rs, t) := execLoop rb tx db' rest
           (d, r :: rs, t)
@@ -211,9 +244,9 @@ def execute (db : Db) (r : Req) : Out :=
     ⟨db1, rs, false⟩
 
 /-- `abortOnError` of `RequestWithContext` (after the fix): `some db` = break -/
-def abortOnError (rb tx : Bool) (db : Db) : Option Db :=
+def abortOnError (rb tx : Bool) (s : Stmt) (db : Db) : Option Db :=
   if tx then some (rollbackIgnore db)
-  else if rb then some (rollbackIgnore db)
+  else if rb then some (rollbackAfter s db)
   else none
 
 /-- the statement loop of `RequestWithContext` -/
@@ -223,7 +256,7 @@ def reqLoop (rb : Bool) : Bool → Db → List Stmt → Db × List Res × Bool
     if s = .empty then reqLoop rb tx db rest
     else if !prepares s then
       -- StmtReadOnlyWithConn returned an error
-      match abortOnError rb tx db with
+      match abortOnError rb tx s db with
       | some d => (d, [.err], false)
       | none =>
         let (d, rs, t) := reqLoop rb tx db rest
@@ -231,7 +264,7 @@ def reqLoop (rb : Bool) : Bool → Db → List Stmt → Db × List Res × Bool
     else
       let (db', r, e) := if readOnly s then queryStmt db s else executeStmt db s
       if e then
-        match abortOnError rb tx db' with
+        match abortOnError rb tx s db' with
         | some d => (d, [r], false)
         | none =>
           let (d, rs, t) := reqLoop rb tx db' rest
@@ -257,7 +290,7 @@ def request (db : Db) (r : Req) : Out :=
    `<res;res;…|-> <committed> <open|-> <err 0|1>`
 statement tokens: `w<δ>` ok, `r<δ>` returning, `R<δ>` returning+ForceQuery, `xf` execFail,
 `pf` prepFail, `e` empty, `q` query, `Q` query+ForceQuery, `qf` queryFail, `p<δ>` partialFail,
-`ar` autoRollback, `sp` startFail (does not prepare), `sa` startFail (write, too few parameters), `sq` startFail (read-only, too few parameters), `b`, `c`, `rb`.
+`ar` autoRollback, `to` timeout, `sp` startFail (does not prepare), `sa` startFail (write, too few parameters), `sq` startFail (read-only, too few parameters), `b`, `c`, `rb`.
 result tokens: `E<rowid>`, `E*`, `Q<ids .-separated>`, `err`. Lists of ids are `.`-separated, `-` when empty. -/
 
 structure DState where
@@ -272,6 +305,7 @@ def parseStmt (t : String) : Option Stmt :=
   | ['Q'] => some (.query true)
   | ['q', 'f'] => some .queryFail
   | ['a', 'r'] => some .autoRollback
+  | ['t', 'o'] => some .timeout
   | ['s', 'p'] => some (.startFail false false)
   | ['s', 'a'] => some (.startFail true false)
   | ['s', 'q'] => some (.startFail true true)
